@@ -1,7 +1,7 @@
 //! E1 checks, part 2: C07 (Metropolis rule), C18 (annealing schedule), C20 (termination and
 //! amount of work; optimiser part).
 
-use super::checks::{cap_for_n, gen_cfg, scen, shrink_e1, unscen, REAL, STUB};
+use super::checks::{cap_for_n, gen_cfg, gen_prelude, run_prelude, scen, shrink_e1, unscen, with_prelude, REAL, STUB};
 use super::tracker::{EdgeCtx, Trace};
 use super::*;
 use sim_core::driver::{Check, RunOut, Tier, Violation};
@@ -217,7 +217,8 @@ impl C07 {
         }
         cfg.convergence = None;
         cap_for_n(&ps, &mut cfg);
-        scen(&ps, &ls, &cfg).set("mode", J::str("clauses"))
+        let pre = gen_prelude(rng);
+        with_prelude(scen(&ps, &ls, &cfg), pre).set("mode", J::str("clauses"))
     }
 
     fn exec_det(&self, j: &J) -> Result<RunOut, String> {
@@ -227,6 +228,7 @@ impl C07 {
             return Err("C07 clause scenario without a known constant temperature".into());
         }
         let kt = cfg.kt_start;
+        let had_prelude = run_prelude(j, &ps)?;
         let run = run_e1(&ps, &ls, &cfg)?;
         let tr = run.trace();
         let mut out = super::checks_base_out(&run, &tr);
@@ -268,6 +270,7 @@ impl C07 {
             out.violate(Violation::new(class, k as u64, format!("at score() call {}: {}", k, why)));
         }
         out.count("probe.kt_zero_runs", (kt == 0.0) as u64);
+        out.count("fault.F-history(an earlier optimisation ran on the same thread)", had_prelude as u64);
         Ok(out)
     }
 }
@@ -282,7 +285,7 @@ impl Check for C07 {
     fn runs(&self, tier: Tier) -> u64 {
         c07_stat_scenarios(tier)
             + match tier {
-                Tier::Quick => 20_000,
+                Tier::Quick => 40_000,
                 Tier::Thorough => 1_000_000,
             }
     }
@@ -666,14 +669,17 @@ pub fn gen_c20_e1(rng: &mut Rng, _tier: Tier) -> J {
         seed: rng.below(1 << 32),
     };
     cap_for_n(&ps, &mut cfg);
-    scen(&ps, &ls, &cfg).set("mode", J::str("optimiser"))
+    let pre = gen_prelude(rng);
+    with_prelude(scen(&ps, &ls, &cfg), pre).set("mode", J::str("optimiser"))
 }
 
 pub fn exec_c20_e1(j: &J) -> Result<RunOut, String> {
     let (ps, ls, cfg) = unscen(j)?;
+    let had_prelude = run_prelude(j, &ps)?;
     let run = run_e1(&ps, &ls, &cfg)?;
     let tr = run.trace();
     let mut out = super::checks_base_out(&run, &tr);
+    out.count("fault.F-history(an earlier optimisation ran on the same thread)", had_prelude as u64);
     out.count("fault.F-zero", (cfg.steps == 0 || cfg.inner == 0) as u64);
     out.count("probe.inner_gt_steps", (cfg.inner > cfg.steps) as u64);
     out.count("probe.non_multiple", (cfg.inner > 0 && cfg.steps % cfg.inner.max(1) != 0) as u64);
